@@ -184,7 +184,7 @@ fn catalogue() -> Vec<(&'static str, Vec<&'static str>, u64)> {
         ("VectorClockDSTHarness", vec!["calm", "moderate", "chaos"], 200),
         ("MultiNodeSimulation.broadcast", vec!["lossless", "lossy", "burst"], 120),
         ("MultiNodeSimulation.partitioned", vec!["lossless", "lossy", "burst"], 120),
-        ("run_partition_test", vec!["isolate_node", "split_brain", "asymmetric", "ring"], 50),
+        ("run_partition_test", vec!["isolate_node", "split_brain", "asymmetric", "ring", "ring_heavy", "split_heavy"], 50),
         ("DSTSimulation", vec!["new", "calm", "chaos"], 400),
         ("RedisDSTSimulation", vec!["zipfian", "uniform", "zipfian+chaos-faults"], 120),
         ("Simulation", vec!["reliable", "drop30", "partition"], 60),
@@ -495,8 +495,21 @@ fn run_case(h: &str, p: &str, s: u64, ops: u64) -> Dump {
                 "asymmetric" => (4, PartitionConfig::asymmetric(0, 3)),
                 _ => (5, PartitionConfig::ring(5)),
             };
-            let during = vec![(0, "key1", "from0"), (nodes - 1, "key1", "fromlast"), (1, "key2", "c")];
-            let after = vec![(0, "key1", "final"), (nodes - 1, "key2", "final2")];
+            let (nodes, cfg) = match p {
+                "ring_heavy" => (5, PartitionConfig::ring(5)),
+                "split_heavy" => (5, PartitionConfig::split_brain(vec![0, 1], vec![2, 3, 4])),
+                _ => (nodes, cfg),
+            };
+            // the heavy presets: very unequal amounts of history behind the partition (1, 8 and 30 keys), then two writers
+            // racing on one key right after the heal - the winner depends on every node's clock, i.e. on everything the heal did
+            let heavy = p.ends_with("_heavy");
+            let names: Vec<String> = (0..30).map(|i| format!("hk{}", i)).collect();
+            let mut during: Vec<(usize, &str, &str)> = vec![(0, "key1", "from0"), (nodes - 1, "key1", "fromlast"), (1, "key2", "c")];
+            if heavy {
+                during.extend(names.iter().take(8).map(|k| (1usize, k.as_str(), "eight")));
+                during.extend(names.iter().map(|k| (nodes - 1, k.as_str(), "thirty")));
+            }
+            let after = if heavy { vec![(0, "race", "from-node-0"), (1, "race", "from-node-1"), (nodes - 1, "key2", "final2")] } else { vec![(0, "key1", "final"), (nodes - 1, "key2", "final2")] };
             let r = run_partition_test(p, nodes, s, cfg, during, after, n);
             d.trace_items += r.convergence_rounds + r.final_values.len();
             d.sec("result", format!("{:?}", r));
